@@ -132,6 +132,8 @@ let () =
       vbool (EngineDomain16.wf16_rows (rows tt) (strs structs) (strs protos) (strs msgs) (template16 t)) | _ -> failwith "arity")
 
 let () =
+  register "d07.names_ok_shipped_cs" (function [lines; tt; structs; protos; msgs; a] ->
+      vbool (Parse16.names_ok_shipped_cs (strs lines) (rows tt) (strs structs) (strs protos) (strs msgs) (dict a)) | _ -> failwith "arity");
   register "d07.names_ok_shipped" (function [lines; tt; structs; protos; msgs] ->
       vbool (Parse16.names_ok_shipped (strs lines) (rows tt) (strs structs) (strs protos) (strs msgs)) | _ -> failwith "arity")
 
